@@ -44,7 +44,10 @@ type sqlRoots struct {
 	mu   sync.Mutex
 	ctx  map[string]*rootCtx
 	peel bool // peel loops in the lexer roots
+	lc   loopClass
 }
+
+func (sr *sqlRoots) loops() *loopClass { return &sr.lc }
 
 func (sr *sqlRoots) setCtx(name string, c *rootCtx) {
 	sr.mu.Lock()
